@@ -150,12 +150,31 @@ def run(reg, idx, name, timeout_ms=None, seed=0):
             obs.append(ob("fx/package/ParsedDataMap-does-not-escape", not esc, esc))
             # frozen dataclasses
             for path in FROZEN:
+                detail = "frozen dataclass"
                 try:
                     c = _cls(path)
                     ok = dataclasses.is_dataclass(c) and c.__dataclass_params__.frozen
+                    # the frozen __setattr__ a class inherits from a dataclass parent only guards the
+                    # parent's own class and field names: an undecorated subclass accepts new names.
+                    # Ground test on a bare instance of the live class: every assignment must raise.
+                    inst = object.__new__(c)
+                    for nm in [f.name for f in dataclasses.fields(c)][:1] + ["brand_new_attribute"]:
+                        try:
+                            setattr(inst, nm, 1)
+                            ok = False
+                            detail = f"assignment to {nm!r} is accepted"
+                        except (dataclasses.FrozenInstanceError, AttributeError):
+                            pass
+                        try:
+                            delattr(inst, nm)
+                            ok = False
+                            detail = f"deletion of {nm!r} is accepted"
+                        except (dataclasses.FrozenInstanceError, AttributeError):
+                            pass
                 except Exception as e:
                     ok = False
-                obs.append(ob(f"fx/{path}/rejects-attribute-assignment", ok, "frozen dataclass"))
+                    detail = repr(e)
+                obs.append(ob(f"fx/{path}/rejects-attribute-assignment", ok, detail))
             # memo of cached properties is outside equality / repr / hash
             util = live_module("chartparse.util")
             import inspect
